@@ -89,6 +89,15 @@ def run(chk):
             chk.check(wit is None, "R1", f"{rel}:{cname}.{start} | stop before restart", st.loc(a.ast),
                       f"a path reaches `{src(a.ast)[:60]}` with a possibly live previous task (it keeps transmitting, no handle left): "
                       f"{path_text(wit) if wit else ''}")
+        # what the running task sends stays the producer's configuration: period / id are changed only after the old task was stopped
+        for pst_ in [n for n in ff.cfg.nodes if n.kind == "stmt" and isinstance(n.ast, (ast.Assign, ast.AugAssign)) and any(
+                dotted(t) in ("self.period", "self.cob_id", "self._heartbeat_time_ms") for t in (n.ast.targets if isinstance(n.ast, ast.Assign) else [n.ast.target]))]:
+            if dotted((pst_.ast.targets[0] if isinstance(pst_.ast, ast.Assign) else pst_.ast.target)) == "self._heartbeat_time_ms":
+                continue        # informational copy, not an argument of the task
+            wit = must_pass(ff.cfg, is_stop, to_nodes=[pst_], skip_edge=dead_edge)
+            chk.check(wit is None, "R1", f"{rel}:{cname}.{start} | running task stopped before `{src(pst_.ast)[:40]}`", st.loc(pst_.ast),
+                      f"the producer's setting is changed while the previous task may still run: if {start}() then fails (invalid period) the old task keeps "
+                      f"transmitting with a period that is no longer the producer's: {path_text(wit) if wit else ''}")
         # every call to a handle-creating assignment: all other writers of the handle
         for mname, m in cls.methods.items():
             for s_ in attr_stores(m.node, handle):
